@@ -2109,6 +2109,9 @@ class Interp:
             if m == 'clear':
                 base.l.clear()
                 return None
+            if m == 'reverse' and not args:
+                base.l.reverse()
+                return None
             if m == 'insert':
                 base.l.insert(args[0], args[1])
                 return None
